@@ -579,9 +579,9 @@ def run(ck):
         "np.argsort inside the NDS pre-filter returns a permutation (observed, passed to the model)",
         "IEEE arithmetic is exact on the lattice/dyadic inputs (products < 2^53); non-dyadic floats compared with relative tolerance 1e-9",
     ]
-    ck.trusted_extra = ["the nested dimension-sweep for >= 4 objectives (levelN calling itself: ignore flags, cached area/volume, shared bounds) is an "
-                        "executable model compared with the implementation and with the proved specification on every generated case, not proved "
-                        "equal to it (1, 2 and 3 objectives are proved end to end)"]
+    ck.trusted_extra = ["one case is covered by correspondence only: >= 5 objectives together with a point that has a coordinate equal to "
+                        "the reference's in an objective 3..m-2 (the nested levelN with ignore flags / cached areas is proved equal to hv for "
+                        "<= 4 objectives and for every number of objectives outside that case; see Props/C12.lean, C12_nd_code)"]
     R = _Runner(ck)
     pf = R.pf
     real_np = pf.np
